@@ -1,6 +1,8 @@
 """C10 — equals() is a true equivalence relation that sees every attribute."""
 import random, copy
 from vlib.common import *
+sys.path.insert(0, os.path.join(ROOT, 'gen'))
+import tables
 from pygen import entities as E
 
 KINDS = ['units', 'var', 'reset', 'comp', 'model']
@@ -9,7 +11,7 @@ KINDS = ['units', 'var', 'reset', 'comp', 'model']
 def run(chk, replay=None):
     lib = build_lib()
     hx = build_hx('hx_equals', lib, extra_src=[os.path.join(ROOT, 'harness', 'hx_entity.h')])
-    leandir, ok, out, changed = standard_lean(chk, 'C10')
+    leandir, ok, out, changed = standard_lean(chk, 'C10', {'Cellml/Generated/EqualsFields.lean': tables.equals_table(REPO)})
     chk.assumptions += [
         'exponent / multiplier comparison to within 1 ulp (areNearlyEqual) is abstracted to equality of tokens; generated values are identical or far apart',
         'entities are built through the public API from the wire description (harness/hx_entity.h); parents and equivalences are not part of equality and not modelled here',
@@ -62,7 +64,7 @@ def run(chk, replay=None):
     _, model, e2 = run_lines_parallel(drv, ['equals'], lines)
     disagree, orafail, known = [], [], []
     hist = {}
-    kf = [f for f in known_findings()['findings'] if f['property'] == 'C10']
+    kf = [f for f in known_findings()['findings'] if f['property'] == 'C10' and f['id'] == 'C10-variable-count']
     for (l, exp, desc), x, y in zip(cases, impl, model):
         me = y.split()[0] if y.startswith('E') else y
         mf = y.split()[1][1:] if ' F' in y else ''
@@ -90,6 +92,17 @@ def run(chk, replay=None):
                    samples=[dict(case=cases[i][2], line=lines[i][:300], impl=impl[i], model=model[i]) for i in (0, 1, 2, len(cases) // 2, len(cases) - 4) if i < len(cases)],
                    traces_validated_against_impl=len(cases) - len(disagree), exhaustive=False, outcome_histogram=hist,
                    known_finding_instances=len(known))
+    if not replay:
+        # probe of known finding C10-absolute-tolerance-near-zero: multipliers / exponents of very small magnitude
+        u = lambda exp_, mult_: {'id': '', 'name': 'u', 'imp': {'src': None, 'ref': ''}, 'children': [{'ref': 'second', 'pfx': '', 'id': '', 'exp': exp_, 'mult': mult_}]}
+        pl = ['(eq units %s %s)' % (E.sexp_units(u('1', '1e-20')), E.sexp_units(u('1', '5e-17'))), '(eq units %s %s)' % (E.sexp_units(u('0', '1')), E.sexp_units(u('2e-16', '1')))]
+        _, pi, _ = run_lines(hx, [], pl)
+        if any(x.startswith('E11') or x.startswith('E10') or x.startswith('E01') for x in pi):
+            tf = [f for f in known_findings()['findings'] if f['id'] == 'C10-absolute-tolerance-near-zero']
+            if tf:
+                chk.known_finding(tf[0]['what'])
+            else:
+                orafail.append((pl[0], 'tiny multipliers', 'units whose multipliers are 1e-20 and 5e-17 (or exponents 0 and 2e-16) compare equal: ' + ' '.join(pi)))
     if known:
         chk.known_finding(kf[0]['what'] + ' (%d generated pairs hit it, e.g. %s)' % (len(known), known[0][1]))
     for l, desc, why in orafail[:3]:
